@@ -108,7 +108,7 @@ def run_tlc(module, cfg=None, cwd=None, workers=None, timeout=1200, extra=(), en
     cwd = cwd or SPEC
     meta = os.path.join(WORK, "tlcmeta", f"{module}-{os.getpid()}-{time.time_ns()}")
     os.makedirs(meta, exist_ok=True)
-    cmd = ["java", "-XX:+UseParallelGC", "-Xmx12g"] + ([f"-DTLA-Library={lib}"] if lib else []) + ["-cp", TLA_CP + ":" + SPEC, "tlc2.TLC",
+    cmd = ["java", "-XX:+UseParallelGC", "-Xmx12g", "-Xss256m"] + ([f"-DTLA-Library={lib}"] if lib else []) + ["-cp", TLA_CP + ":" + SPEC, "tlc2.TLC",
            "-workers", str(workers or NCPU), "-metadir", meta, "-noGenerateSpecTE"]
     if not deadlock:
         cmd.append("-deadlock")
